@@ -34,6 +34,7 @@ type c09Case struct {
 }
 type c09Viol struct {
 	Case   c09Case      `json:"case"`
+	Stage  []c09Case    `json:"stage,omitempty"`
 	Class  string       `json:"class"`
 	Detail string       `json:"detail"`
 	Out    plan.Outcome `json:"outcome"`
@@ -53,6 +54,19 @@ type c09Result struct {
 	SampleOut   []string       `json:"sample_outcomes,omitempty"`
 	DeviceReads int            `json:"device_reads"`
 	Digest      uint64         `json:"digest"`
+	Verdicts    []c09Verdict   `json:"verdicts,omitempty"`
+}
+
+type c09Verdict struct {
+	Class  string       `json:"class,omitempty"`
+	Detail string       `json:"detail,omitempty"`
+	Out    plan.Outcome `json:"outcome"`
+}
+
+// c09Plan: the calls run in this order in one fresh (address-space capped) process; the verdict is that of
+// the LAST one, the earlier ones only set the stage (a warmed cache, a failed source, ...).
+type c09Plan struct {
+	Cases []c09Case `json:"cases"`
 }
 
 func c09Key(c *c09Case, class string) string {
@@ -63,8 +77,13 @@ func c09Key(c *c09Case, class string) string {
 }
 
 func c09Violation(v *c09Viol) *Violation {
-	return &Violation{Property: "C09", Class: v.Class, Key: c09Key(&v.Case, v.Class), Engine: "srcsim-c09", Plan: v.Case,
-		Detail: v.Detail + "; outcome " + v.Out.Out + " err=" + v.Out.Err + " panic=" + v.Out.Panic}
+	cs := append(append([]c09Case{}, v.Stage...), v.Case)
+	stage := ""
+	if len(v.Stage) > 0 {
+		stage = fmt.Sprintf(" (after %d earlier call(s) in the same process: %s)", len(v.Stage), mustJSON(v.Stage))
+	}
+	return &Violation{Property: "C09", Class: v.Class, Key: c09Key(&v.Case, v.Class), Engine: "srcsim-c09", Plan: c09Plan{Cases: cs},
+		Detail: v.Detail + stage + "; outcome " + v.Out.Out + " err=" + v.Out.Err + " panic=" + v.Out.Panic}
 }
 
 type c09Engine struct {
@@ -74,11 +93,15 @@ type c09Engine struct {
 
 // capped runs a worker under an address-space limit so that a dropped upper
 // bound ends as a crash of that one process, attributed to its single case.
-func (g *c09Engine) runCapped(c c09Case) (*c09Viol, error) {
+func (g *c09Engine) runCapped(c c09Case) (*c09Viol, error) { return g.runCappedSeq([]c09Case{c}) }
+
+// runCappedSeq runs the cases in one capped process and returns the verdict on the last one.
+func (g *c09Engine) runCappedSeq(cs []c09Case) (*c09Viol, error) {
+	c := cs[len(cs)-1]
 	var res c09Result
 	d := g.e.JobDir()
 	inP, outP := d+"/in.json", d+"/out.json"
-	if err := WriteFileJSON(inP, c09Job{Kind: "explicit", Cases: []c09Case{c}}); err != nil {
+	if err := WriteFileJSON(inP, c09Job{Kind: "explicit", Cases: cs}); err != nil {
 		return nil, err
 	}
 	p := g.e.RunProc(90*time.Second, nil, d, "/bin/sh", "-c", "ulimit -v 4194304; exec \"$0\" c09 \"$1\" \"$2\"", g.bin, inP, outP)
@@ -94,10 +117,14 @@ func (g *c09Engine) runCapped(c c09Case) (*c09Viol, error) {
 	if err := readJSONFile(outP, &res); err != nil {
 		return nil, err
 	}
-	if len(res.Viol) > 0 {
-		return &res.Viol[0], nil
+	if len(res.Verdicts) != len(cs) {
+		return nil, Troublef("C09 worker returned %d verdicts for %d cases", len(res.Verdicts), len(cs))
 	}
-	return nil, nil
+	last := res.Verdicts[len(cs)-1]
+	if last.Class == "" {
+		return nil, nil
+	}
+	return &c09Viol{Case: c, Stage: cs[:len(cs)-1], Class: last.Class, Detail: last.Detail, Out: last.Out}, nil
 }
 
 func firstLine(s string) string {
@@ -112,13 +139,24 @@ func firstLine(s string) string {
 	return ""
 }
 
-func (g *c09Engine) Reproduce(pl interface{}) (*Violation, error) {
-	var c c09Case
+func toC09Plan(pl interface{}) (*c09Plan, error) {
+	var p c09Plan
 	b, _ := json.Marshal(pl)
-	if err := json.Unmarshal(b, &c); err != nil {
+	if err := json.Unmarshal(b, &p); err != nil {
 		return nil, err
 	}
-	v, err := g.runCapped(c)
+	if len(p.Cases) == 0 {
+		return nil, Troublef("C09 plan without cases")
+	}
+	return &p, nil
+}
+
+func (g *c09Engine) Reproduce(pl interface{}) (*Violation, error) {
+	p, err := toC09Plan(pl)
+	if err != nil {
+		return nil, err
+	}
+	v, err := g.runCappedSeq(p.Cases)
 	if err != nil || v == nil {
 		return nil, err
 	}
@@ -126,21 +164,52 @@ func (g *c09Engine) Reproduce(pl interface{}) (*Violation, error) {
 }
 
 func (g *c09Engine) Minimise(v *Violation) *Violation {
-	// a case is a single call; try the plainest device state and English
-	var c c09Case
-	b, _ := json.Marshal(v.Plan)
-	if json.Unmarshal(b, &c) != nil {
+	p, err := toC09Plan(v.Plan)
+	if err != nil {
 		return v
 	}
-	t := c
-	t.Lang = 2
-	if t.Kind == "count" {
-		t.State = "work"
+	cs := p.Cases
+	same := func(t []c09Case) *c09Viol {
+		got, err := g.runCappedSeq(t)
+		if err == nil && got != nil && got.Class == v.Class {
+			return got
+		}
+		return nil
 	}
-	if got, err := g.runCapped(t); err == nil && got != nil && got.Class == v.Class {
-		return c09Violation(got)
+	best := same(cs)
+	if best == nil {
+		return v
 	}
-	return v
+	// which of the stage-setting calls are needed?
+	if len(cs) > 1 {
+		stage, last := cs[:len(cs)-1], cs[len(cs)-1]
+		keep := DDMin(len(stage), func(k []int) bool {
+			t := []c09Case{}
+			for _, i := range k {
+				t = append(t, stage[i])
+			}
+			return same(append(t, last)) != nil
+		}, 150, 60*time.Second)
+		t := []c09Case{}
+		for _, i := range keep {
+			t = append(t, stage[i])
+		}
+		t = append(t, last)
+		if got := same(t); got != nil {
+			cs, best = t, got
+		}
+	}
+	// the plainest device state and English for the judged call
+	t := append([]c09Case{}, cs...)
+	last := &t[len(t)-1]
+	last.Lang = 2
+	if last.Kind == "count" {
+		last.State = "work"
+	}
+	if got := same(t); got != nil {
+		best = got
+	}
+	return c09Violation(best)
 }
 
 // CheckC09 - size gates; the NewMnemonic half is observed at the device.
